@@ -9,6 +9,8 @@ import (
 	"errors"
 	"fmt"
 	"io"
+	"net/http"
+	"net/http/httptest"
 	"sync"
 
 	"github.com/gobwas/ws"
@@ -50,6 +52,7 @@ const svcPkg = "vf.strm"
 //	Bidi(stream Chunk) stream Chunk   POST /bidi body:*    | WEBSOCKET /ws body:*
 //	BidiNB(stream Chunk) stream Chunk WEBSOCKET /wsn/{id}  (no body)
 //	Upload(stream Upload) Rsp         POST /upload/{name} body:file
+//	UpEcho(stream Upload) stream Chunk POST /upecho/{name} body:file
 //	Download(Req) stream HttpBody     GET /download/{a}
 func file() *vschema.File {
 	return &vschema.File{Path: "vf/strm.proto", Pkg: svcPkg, Services: []vschema.Service{{Name: "Strm", Methods: []vschema.Method{
@@ -58,6 +61,7 @@ func file() *vschema.File {
 		{Name: "Bidi", In: "vf.Chunk", Out: "vf.Chunk", CS: true, SS: true, Rule: with(post("/bidi", "*"), wsr("/ws", "*"))},
 		{Name: "BidiNB", In: "vf.Chunk", Out: "vf.Chunk", CS: true, SS: true, Rule: wsr("/wsn/{id}", "")},
 		{Name: "Upload", In: "vf.Upload", Out: "vf.Rsp", CS: true, Rule: post("/upload/{name}", "file")},
+		{Name: "UpEcho", In: "vf.Upload", Out: "vf.Chunk", CS: true, SS: true, Rule: post("/upecho/{name}", "file")},
 		{Name: "Download", In: "vf.Req", Out: "google.api.HttpBody", SS: true, Rule: get("/download/{a}")},
 	}}}}
 }
@@ -84,6 +88,15 @@ type script struct {
 	// StopAfter > 0: stop receiving after that many messages (the handler
 	// ends the call while the client's stream is still open).
 	StopAfter int
+	// EchoMode shapes the echoed reply: "" same as the request, "long"
+	// about three times longer, "short" only the sequence number.
+	// EchoEvery > 1 replies only after every EchoEvery-th message.
+	EchoMode  string
+	EchoEvery int
+	// Interfere: between a receive and the reply, serve an unrelated request
+	// on the same mux from the handler's goroutine (shared buffer pools).
+	Interfere bool
+	Limit     int
 }
 
 // rec is the handler-side log of one stream. All access goes through mu.
@@ -385,15 +398,13 @@ func (e *env) Stream(md protoreflect.MethodDescriptor, ss grpc.ServerStream) (re
 				return status.Error(codes.ResourceExhausted, "verif: more messages than the client sent")
 			}
 			if sc.Echo && md.IsStreamingServer() {
-				// the reply repeats the received message
-				b, err := proto.Marshal(in)
-				if err != nil {
-					return err
+				if sc.Interfere {
+					e.interfere(sc.Limit)
 				}
-				if md.Input().FullName() == md.Output().FullName() && echoErr == nil {
+				if (sc.EchoEvery <= 1 || n%sc.EchoEvery == 0) && echoErr == nil {
 					// after a failed send (client gone) keep receiving so
 					// that the terminal event of the stream is observed
-					echoErr = send(b)
+					echoErr = send(echoReply(in, n, sc.EchoMode))
 				}
 			}
 			if sc.StopAfter > 0 && n >= sc.StopAfter {
@@ -467,4 +478,52 @@ func (e *env) Stream(md protoreflect.MethodDescriptor, ss grpc.ServerStream) (re
 		}
 	}
 	return final()
+}
+
+// echoReply builds the wire bytes of the vf.Chunk echoed for a received
+// vf.Chunk or vf.Upload.
+func echoReply(in proto.Message, n int, mode string) []byte {
+	var seq int32
+	var data []byte
+	var text string
+	if in.ProtoReflect().Descriptor().FullName() == "vf.Upload" {
+		seq = int32(n)
+		f := getField(in, "file").Message().Interface()
+		data = getField(f, "data").Bytes()
+	} else {
+		if mode == "" {
+			return mustMarshal(in)
+		}
+		seq = int32(getField(in, "seq").Int())
+		data = getField(in, "data").Bytes()
+		text = getField(in, "text").String()
+	}
+	switch mode {
+	case "short":
+		return mustMarshal(mkChunk(seq, nil, ""))
+	case "long":
+		long := append(append(append([]byte(nil), data...), data...), data...)
+		m := mkChunk(seq, long, text)
+		setField(m, "tag", protoreflect.ValueOfString(fmt.Sprintf("reply-%03d-%s", n, "0123456789abcdefghijklmnopqrstuvwxyz0123456789")))
+		return mustMarshal(m)
+	}
+	return mustMarshal(mkChunk(seq, data, text))
+}
+
+// interfere serves an unrelated server-streaming request on the same mux
+// from the calling goroutine.
+func (e *env) interfere(limit int) {
+	mux := e.muxes[limit]
+	if mux == nil {
+		return
+	}
+	id, _ := e.open(script{Reply: [][]byte{mustMarshal(mkChunk(7, nil, "interfering reply interfering reply interfering reply"))}, MaxRecv: 4})
+	defer e.drop(id)
+	body := []byte(`{"seq":9,"text":"interfering request interfering request interfering"}`)
+	if limit > 0 && len(body) > limit {
+		body = []byte(`{}`)
+	}
+	req := wire.BodyRequest("POST", "/ss", "", http.Header{"X-Case": {id}, "Content-Type": {"application/json"}}, body)
+	mon.Catch(func() { mux.ServeHTTP(httptest.NewRecorder(), req) })
+	e.r.Count("interfering_requests", 1)
 }
